@@ -12,6 +12,7 @@ Proved here, for every fault script of any length, every fuel, every payload lis
                                configuration (any DID/NAD/MIU/variant), no hypothesis
 * `dep_success_complete`       a run without exception delivered every payload, both ways
 * `dep_nothing_after_error`    a Target that raised or returned None never delivers or answers again
+* `dep_foreign_did_silent`     a request with a foreign DID is never answered and changes nothing
 * `dep_transaction_at_most_once`  one `send_dep_req_recv_dep_res` makes the peer accept the request
                                at most once (generic over the peer; the lemma behind `dep_exactly_once`)
 * `dep_frame_bound`            no frame exceeds the LR announced by its receiver
@@ -187,6 +188,33 @@ theorem dep_nothing_after_error (c : Cfg) (t : TState) (h : t.status ≠ .runnin
   | frame p => simp [tRx, h]
 
 example : (⟨some 1, .receiving [], none, [], [[1]], .raised .protocol⟩ : TState).status ≠ .running := by decide
+
+/-- **Foreign DID is met with silence.**  A request of any kind (DEP INF/ACK/NAK/ATN/RTOX, DSL, RLS, PSL,
+ATR) whose DID differs from the Target's - another DID, no DID while the Target has one, a DID while
+the Target has none - is never answered: no saved response, no payload, no PNI leaks to a frame addressed
+to another target; and the Target state (PNI, reassembly buffer, delivered and pending payloads, saved
+response, status) is unchanged, for every state.  (Only `clf.listen`, which in the simulator returns with
+the first DEP_REQ whatever its DID, moves from `listen` to `first`.) -/
+theorem dep_foreign_did_silent (c : Cfg) (t : TState) (req : Pdu) (h : req.didAttr ≠ c.tdid) :
+    (tRx c t (.frame req)).2 = none ∧
+    ((tRx c t (.frame req)).1 = t ∨ (t.loc = .listen ∧ (tRx c t (.frame req)).1 = { t with loc := .first })) :=
+  tRx_foreign c t req h
+
+example : (Pdu.dep fINF 1 (some 7) none [0x27]).didAttr ≠ (cSmall .repaired none).tdid := by decide
+
+/-- As found (F41) a repeated RTOX request - the Initiator sends it again when the Target's next
+information PDU was lost after a timeout extension - is handed to `Target.exchange` as a new request:
+with packet number 3 the check `(pni + 1) & 3 == req.pni` passes and the RTOX value `02` is returned
+to the application as a received payload that nobody sent.  Repaired: the saved response is sent again
+and nothing changes.  (The Target application of the composed model never requests timeout extensions,
+so `dep_exactly_once` is not affected; the oracle runs the scenario on the real code.) -/
+theorem dep_rtox_request_counterexample :
+    let t : TState := ⟨some 3, .sending [0x84], some (.dep fINF 3 none none [0x84]), [[0x85]], [[1], [2], [3], [4]], .running⟩
+    (tRx (cSmall .asFound none) t (.frame (.dep fTOX 0 none none [2]))).1.got = [[1], [2], [3], [4], [2]]
+    ∧ (tRx (cSmall .repaired none) t (.frame (.dep fTOX 0 none none [2]))).2 = some (.dep fINF 3 none none [0x84])
+    ∧ (tRx (cSmall .repaired none) t (.frame (.dep fTOX 0 none none [2]))).1.got = [[1], [2], [3], [4]]
+    ∧ (tRx (cSmall .repaired none) t (.frame (.dep fTOX 0 none none [2]))).1.status = .running := by
+  decide +kernel
 
 /-- The lemma behind `dep_exactly_once`, for ANY peer state machine `P`: if `A` (request not yet
 accepted) is closed under ATN and accepting `req` leads from `A` to `B` with answer `r1`, and in `B`
